@@ -141,18 +141,25 @@ func c03Build(s c03Shape, strMask int) *c03World {
 	for i := 0; i < s.R; i++ {
 		rh = append(rh, next())
 	}
+	// a sibling route registered right after the probed one, in the same scope, with a handler of its
+	// own: it must never show up in the probed route's chain (id 90 is no position of the chain)
+	sibling := func() {
+		w.f.Get("/sibling", func(c flamego.Context) { w.trace = append(w.trace, c03Ev{K: 'E', I: 90}) })
+	}
 	switch {
 	case s.G == 0:
 		w.f.Get("/x", rh...)
+		sibling()
 		w.path = "/x"
 	case s.Flat:
-		w.f.Group("/g", func() { w.f.Get("/x", rh...) }, gh...)
+		w.f.Group("/g", func() { w.f.Get("/x", rh...); sibling() }, gh...)
 		w.path = "/g/x"
 	default:
 		var nest func(d int)
 		nest = func(d int) {
 			if d == s.G {
 				w.f.Get("/x", rh...)
+				sibling()
 				return
 			}
 			w.f.Group(fmt.Sprintf("/g%d", d), func() { nest(d + 1) }, gh[d])
@@ -196,6 +203,9 @@ func c03Accept(total int, tr []c03Ev, gotStatus int, gotBody string) (bad, kind 
 		switch ev.K {
 		case 'E':
 			if ev.I != started {
+				if ev.I == 90 {
+					return fmt.Sprintf("%s: a handler of a sibling route ran in this route's chain", at), "foreign-handler"
+				}
 				if ev.I < started {
 					return fmt.Sprintf("%s: handler %d started again (at most once)", at, ev.I), "started-twice"
 				}
